@@ -56,12 +56,19 @@ Definition anyfed : dna -> dna -> Prop := fun _ _ => True.
 (* history relations: what of the persisted history a generator's recovery depends on *)
 Definition hrel := list hentry -> list hentry -> Prop.
 
-(* same rewards at the same positions, identical entries where rewarded *)
-Definition hs_weak (e e' : hentry) : Prop := snd e = snd e' /\ (snd e <> None -> fst e = fst e').
+(* same rewards at the same positions; a rewarded entry is identical, or it is the same DNA as it was before
+   feedback put the sequence number and the fitness on it (a backend that stores the DNA when it is proposed
+   and only the reward later; or a reward that reached the history while feedback() was never called) *)
+Definition hs_weak (e e' : hentry) : Prop :=
+  snd e = snd e' /\
+  (forall r, snd e = Some r ->
+     fst e' = fst e \/ (dfsn (fst e') = None /\ exists q, fst e = set_fed (fst e') q r)).
 Definition HRw : hrel := Forall2 hs_weak.
 
+Lemma hs_weak_refl : forall e, hs_weak e e.
+Proof. intros. split; auto. Qed.
 Lemma HRw_refl : forall h, HRw h h.
-Proof. induction h; constructor; auto. split; auto. Qed.
+Proof. induction h; constructor; auto using hs_weak_refl. Qed.
 Lemma HRw_length : forall h h', HRw h h' -> length h = length h'.
 Proof. induction 1; simpl; congruence. Qed.
 Lemma HRw_nrew : forall h h', HRw h h' -> nrew h = nrew h'.
